@@ -97,3 +97,18 @@ package driver
 //@   loop 1
 //@     invariant 0 <= $i && $i <= len(s.Configs) && s != nil
 //@     invariant forall j int :: 0 <= j && j < $i ==> s.Configs[j].Name != config
+
+// ---- C06 (strengthened after seeded change numeric-upper-bound-exclusive): the numeric range forms are
+// inclusive at both ends; each predicate compares the label value scaled to the filter's unit ----
+//@ func parseTagFilterRange$1
+//@   uses measurement.unitsok
+//@   ensures exact: result <==> callres("Scale", 1) == unit && callres("Scale", 0) == scaledValue
+//@ func parseTagFilterRange$2
+//@   uses measurement.unitsok
+//@   ensures atleast: result <==> callres("Scale", 1) == unit && callres("Scale", 0) >= scaledValue
+//@ func parseTagFilterRange$3
+//@   uses measurement.unitsok
+//@   ensures atmost: result <==> callres("Scale", 1) == unit && callres("Scale", 0) <= scaledValue
+//@ func parseTagFilterRange$4
+//@   uses measurement.unitsok
+//@   ensures between: result <==> callres("Scale", 1) == unit && callres("Scale", 0) >= scaledValue && callres("Scale", 0) <= scaledValue2
